@@ -24,6 +24,14 @@ open Dos Dos.Share Dos.Tbls
 variable {F : Type} [Field F] [DecidableEq F]
 variable {G : Type} [AddCommGroup G] [Module F G] [DecidableEq G]
 
+/-- regenerated from /repo: the share index is a 2-byte big-endian prefix (`SigShare.Index`), the
+curve constants are the alt_bn128 ones. -/
+theorem c02_code_facts :
+    Gen.tblsIndexBytes = 2 ∧ Gen.tblsIndexBigEndian = true
+    ∧ G1.p = 21888242871839275222246405745257275088696311157297823662689037894645226208583
+    ∧ G1.r = 21888242871839275222246405745257275088548364400416034343698204186575808495617 := by
+  decide
+
 /-- **1. Lagrange at zero in the signature group** (the algebra behind recovery): for distinct
 nodes `L` and a polynomial of degree `< |L|`,
 `Σₐ ((Π_{b≠a} b) / Π_{b≠a} (b − a)) • (p(a) • H) = p(0) • H`. -/
